@@ -6,7 +6,7 @@ V = os.path.dirname(os.path.dirname(os.path.abspath(__file__)))
 REPO = os.environ.get("VERIF_REPO", "/repo")
 reg = open(os.path.join(V, "harness/codec_registry.h")).read()
 names = re.findall(r"REGC?\((Q[A-Za-z0-9_]+)[,)]", reg)
-names = list(dict.fromkeys(names)) + ["QXmppStanza", "QXmppBitsOfBinaryData", "QXmppDiscoveryIq", "QXmppRosterIq"]
+names = list(dict.fromkeys(names)) + ["QXmppStanza", "QXmppBitsOfBinaryData", "QXmppDiscoveryIq", "QXmppRosterIq", "QXmppJingleIq::Content", "QXmppStanza::Error", "QXmppRosterIq::Item"]
 headers = {}
 for f in glob.glob(REPO + "/src/base/*.h") + glob.glob(REPO + "/src/client/*.h") + glob.glob(REPO + "/src/base/compat/*.h"):
     headers[f] = open(f).read()
@@ -15,6 +15,19 @@ ARG = re.compile(r"^(?:const\s+)?(%s|std::optional<\s*%s\s*>)\s*&?\s*\w*$" % (SC
 
 
 def class_body(text, name):
+    if "::" in name:
+        # nested class: the body of Inner inside the raw body of Outer
+        outer, inner = name.split("::", 1)
+        m0 = re.search(r"class\s+(?:QXMPP_EXPORT\s+|QXMPP_AUTOTEST_EXPORT\s+)?%s\b[^;{]*\{" % re.escape(outer), text)
+        if not m0:
+            return None
+        i = m0.end()
+        depth = 1
+        while i < len(text) and depth:
+            depth += text[i] == "{"
+            depth -= text[i] == "}"
+            i += 1
+        return class_body(text[m0.end():i], inner)
     m = re.search(r"class\s+(?:QXMPP_EXPORT\s+|QXMPP_AUTOTEST_EXPORT\s+)?%s\b[^;{]*\{" % re.escape(name), text)
     if not m:
         return None
